@@ -65,7 +65,27 @@ def _key(c):
     k = "fam=%s/pd=%d/n=%d/bc=%s/order=%d/attr=%s/dep=%s/gdim=%d/occ=%d/model=%d/v=%d" % (
         c["fam"], c["pd"], c["n"], c["gbc"], c["gorder"], c["attr"] or "-", c["dep"] or "-", c["gdim"], c["occ"],
         c["model"], c["v"])
+    # fields added in round 4 appear for the new cases only (signatures of the older cases are unchanged)
+    for f, dflt in (("mform", "vector"), ("dform", "ndarray"), ("sform", "scalar")):
+        if c.get(f, dflt) != dflt:
+            k += "/%s=%s" % (f, c[f])
+    if _chg(c) != "none":
+        k += "/chg=%s/how=%s" % (c["chg"], c["how"])
     return k if _via(c) == "ctor" else k + "/via=" + _via(c)
+
+
+def _chg(c):
+    """What is replaced between the two draws of a pair of configurations (Conjugate.tla `chg`), 'none' for a single one."""
+    return c.get("chg") or "none"
+
+
+def _is_form(c):
+    return c.get("mform", "vector") != "vector" or c.get("dform", "ndarray") != "ndarray" or c.get("sform", "scalar") != "scalar"
+
+
+def _through_x(c):
+    """The mean is a function of a second block x (linear model or callable) that the joint is conditioned on."""
+    return c["model"] == 1 or c.get("mform") in ("callable", "model")
 
 
 def _own_draws(c):
@@ -106,6 +126,10 @@ def _mean_arg(c, model=None):
     u = np.array(c["u"], dtype=float)
     if model is not None:
         return model
+    if c.get("mform") == "scalar":
+        # the mean as the specification gives it: one number, broadcast over the geometry of dimension n
+        (m0,) = c["meangiven"]
+        return float(m0)
     if c["attr"] == "mean":
         f = _dep_fn(c["dep"])
         if callable(f):
@@ -121,18 +145,36 @@ def _likelihood_dist(c, name, model=None):
     dim = len(c["b"])
     mean = _mean_arg(c, model)
     f = _dep_fn(c["dep"]) if c["attr"] != "mean" else 1.0
+    sform = c.get("sform", "scalar")
+    if sform != "scalar" and callable(f):
+        # the same scale written as the vector f(d) 1 or the matrix f(d) I
+        f0, E = f, (np.ones(dim) if sform == "vector" else np.eye(dim))
+        f = lambda d: f0(d) * E
     if c["fam"] == "gaussian":
         attr = "cov" if c["attr"] == "mean" else c["attr"]
         kw = {attr: f, "name": name}
-        if model is None:
+        if model is None or callable(model) and not hasattr(model, "range_geometry"):
             kw["geometry"] = dim
         return cuqi.distribution.Gaussian(mean, **kw)
     if c["fam"] == "gmrf":
         with _quiet():
             return cuqi.distribution.GMRF(mean, f, bc_type=c["gbc"], order=c["gorder"], geometry=_geom(c), name=name)
     if c["fam"] == "lmrf":
-        return cuqi.distribution.LMRF(np.array(c["mu0"], dtype=float), f, bc_type=c["gbc"], geometry=_geom(c), name=name)
+        loc = mean if c.get("mform") == "scalar" else np.array(c["mu0"], dtype=float)
+        return cuqi.distribution.LMRF(loc, f, bc_type=c["gbc"], geometry=_geom(c), name=name)
     raise ValueError(c["fam"])
+
+
+def _data_arg(c, dist):
+    """The data vector in the representation `dform` of the specification."""
+    import cuqi
+    b = np.array(c["b"], dtype=float)
+    dform = c.get("dform", "ndarray")
+    if dform == "cuqiarray":
+        return cuqi.array.CUQIarray(b, geometry=dist.geometry)
+    if dform == "list":
+        return [float(v) for v in b]
+    return b
 
 
 def _prior(c):
@@ -152,14 +194,15 @@ def build_target(c, real):
     import cuqi
     b = np.array(c["b"], dtype=float)
     d = _prior(c)
-    if c["model"] == 1:
-        A = cuqi.model.LinearModel(np.array(c["A"], dtype=float))
+    if _through_x(c):
+        Am = np.array(c["A"], dtype=float)
+        A = (lambda x: Am @ x) if c.get("mform") == "callable" else cuqi.model.LinearModel(Am)
         x = cuqi.distribution.Gaussian(np.zeros(len(c["xin"])), 1.0, name="x")
         y = _likelihood_dist(c, "y", model=A)
-        return cuqi.distribution.JointDistribution(d, x, y)(y=b, x=np.array(c["xin"], dtype=float))
+        return cuqi.distribution.JointDistribution(d, x, y)(y=_data_arg(c, y), x=np.array(c["xin"], dtype=float))
     x = _likelihood_dist(c, "x")
     if real == "pair":
-        return cuqi.distribution.JointDistribution(x, d)(x=b)
+        return cuqi.distribution.JointDistribution(x, d)(x=_data_arg(c, x))
     dim = len(b)
     B = ((np.arange(3)[:, None] * 2 + np.arange(dim)[None, :]) % 3 - 1).astype(float)
     s = cuqi.distribution.Gamma(2.0, 0.5, name="s")
@@ -335,10 +378,12 @@ def _is_subsequence(chain, returned):
     return True
 
 
-def check_accepted(ctx, c, iface, real, target, res, draws):
-    """The sampler accepted the posterior and stepped: compare with TLC's exact pair and with the real target."""
+def check_accepted(ctx, c, iface, real, target, res, draws, sigx="", coeffs=None):
+    """The sampler accepted the posterior and stepped: compare with TLC's exact pair and with the real target.
+    `sigx` is appended to the signatures (draw number of a pair of configurations); `coeffs` = the target's coefficients
+    evaluated by the caller at the time of the draw (the target of a pair is changed afterwards) or the exception raised."""
     key = _key(c)
-    sig = "%s/%s/%s" % (iface, real, key)
+    sig = "%s/%s/%s" % (iface, real, key) + sigx
     shape, rate = float(_fr(c["shape"])), float(_fr(c["rate"]))
     alpha = float(_fr(c["alpha"]))
     draws = [float(v) for v in draws]
@@ -376,7 +421,9 @@ def check_accepted(ctx, c, iface, real, target, res, draws):
         ctx.observe("conjugate_draws_per_step_not_one", sig)
     # the real target's own density along d
     try:
-        a_t, b_t, vals = target_coefficients(target)
+        if isinstance(coeffs, Exception):
+            raise coeffs
+        a_t, b_t, vals = coeffs if coeffs is not None else target_coefficients(target)
     except Exception as e:      # the posterior the sampler accepted cannot be evaluated: reported, not a crash of the check
         ctx.mismatch("target_logd_raises/" + sig, c, "target.logd raises at d = 1, 2, 4: %r" % (e,))
         return False
